@@ -26,6 +26,7 @@ import (
 	"go.uber.org/zap"
 
 	"github.com/mimiro-io/datahub/internal/conf"
+	"github.com/mimiro-io/datahub/internal/verifhook"
 )
 
 const StorageIDFileName = "DATAHUB_BACKUPID"
@@ -136,6 +137,7 @@ func (backupManager *BackupManager) DoNativeBackup() error {
 	defer file.Close()
 	since, _ := backupManager.store.database.Backup(file, backupManager.lastID)
 	backupManager.lastID = since
+	verifhook.Point("backup.afterBackup")
 
 	// store last id
 	return backupManager.StoreLastID()
